@@ -39,6 +39,8 @@ def run(ctx, obs):
         if n == 0:
             obs.unk('AXIS-pair', q, 'selection pairing', 'no selection recognised')
         field_provenance(ctx, obs, q, ['RDMs'], ['descriptors', 'rdm_descriptors', 'pattern_descriptors'])
+        from ..rules.containers import selection_consults_descriptor
+        selection_consults_descriptor(ctx, obs, q)
 
 
 def _leaf(fn):
